@@ -60,7 +60,20 @@ LEAVES = {
     "list": ("list", list),          # bare containers: contents pass through
     "dict": ("dict", dict),
 }
+# exotic leaves of the extended grammar (C15): evaluated inside the synthesised module (PRELUDE defines them)
+EXOTIC = {
+    "object": "object", "tuple": "tuple", "set": "set", "frozenset": "frozenset",
+    "typing.List": "typing.List", "typing.Dict": "typing.Dict", "typing.Set": "typing.Set",
+    "typing.Tuple": "typing.Tuple", "typing.Sequence": "typing.Sequence", "typing.Mapping": "typing.Mapping",
+    "Callable": "typing.Callable", "XG_int": "XG[int]", "XGD_int": "XGD[int]", "XNoAnn": "XNoAnn", "XEmpty": "XEmpty",
+    "Hashable": "typing.Hashable",
+}
+for _k, _src in EXOTIC.items():
+    LEAVES[_k] = (_src, None)
 LEAF_IDS = {k: i for i, k in enumerate(LEAVES)}
+# TypeVars are normalised by typelib when they are generic arguments: free -> Any, bound -> the bound,
+# constrained -> Union of the constraints
+TVARS = {"XT": ("leaf", "Any"), "XTB": ("leaf", "int"), "XTC": ("union", "Union", [("leaf", "int"), ("leaf", "str")])}
 SEQ_KINDS = {
     "KList": [("list[{}]", list), ("typing.List[{}]", list), ("typing.Sequence[{}]", list),
               ("collections.abc.Sequence[{}]", list), ("typing.Iterable[{}]", list),
@@ -90,7 +103,17 @@ PRELUDE = ("import typing, collections, collections.abc, dataclasses, datetime, 
            "def _verif_m(t, x, depth=0):\n"
            "    from typelib import marshals\n"
            "    if depth:\n        return _verif_m(t, x, depth - 1)\n"
-           "    return marshals.marshal(x, t=t)\n")
+           "    return marshals.marshal(x, t=t)\n"
+           "XT = typing.TypeVar('XT')\nXTB = typing.TypeVar('XTB', bound=int)\nXTC = typing.TypeVar('XTC', int, str)\n"
+           "class XG(typing.Generic[XT]):\n    def __init__(self, v: XT):\n        self.v = v\n"
+           "    def __eq__(self, o):\n        return type(o) is type(self) and o.v == self.v\n"
+           "    def __repr__(self):\n        return f'XG({self.v!r})'\n"
+           "@dataclasses.dataclass\nclass XGD(typing.Generic[XT]):\n    v: XT\n"
+           "class XNoAnn:\n    def __init__(self, a, b=1):\n        self.a = a\n        self.b = b\n"
+           "    def __eq__(self, o):\n        return type(o) is type(self) and vars(o) == vars(self)\n"
+           "    def __repr__(self):\n        return f'XNoAnn({self.a!r}, {self.b!r})'\n"
+           "class XEmpty:\n    def __eq__(self, o):\n        return type(o) is type(self)\n"
+           "    def __repr__(self):\n        return 'XEmpty()'\n")
 
 
 # ----------------------------------------------------------------------------------
@@ -110,6 +133,8 @@ def src_ty(d, env) -> str:
         return key              # enum / literal alias defined in the module under this name
     if k == "none":
         return "None"
+    if k == "tvar":
+        return d[1]
     if k == "seq":
         return d[2].format(src_ty(d[3], env))
     if k == "map":
@@ -315,7 +340,8 @@ class Registry:
         self.atom_objs: list = []
         self.fields: dict[str, int] = {}
         self.leaves: dict[str, int] = dict(LEAF_IDS)
-        self.leaf_py: dict[int, typing.Any] = {LEAF_IDS[k]: v[1] for k, v in LEAVES.items()}
+        self.leaf_py: dict[int, typing.Any] = {
+            LEAF_IDS[k]: (v[1] if v[1] is not None else eval(v[0], mod.__dict__)) for k, v in LEAVES.items()}
         self.classes: dict[type, int] = {}
         for n, d in env["defs"].items():
             if d[0] == "class":
@@ -344,6 +370,8 @@ class Registry:
                 subdescs(d[2] if isinstance(d[1], str) else d[1], ds)
         for k in LEAVES:
             ds.append(("leaf", k))
+        for v in TVARS.values():
+            subdescs(v, ds)
         for n, d in self.env["defs"].items():
             if d[0] in ("enum", "literal"):
                 ds.append(("leaf", n))
@@ -450,6 +478,8 @@ class Registry:
             return f"(TLeaf {coq_nat(self.leaves[d[1]])})"
         if k == "none":
             return "TNone"
+        if k == "tvar":
+            return self.emit_ty(TVARS[d[1]])
         if k == "seq":
             return f"(TSeq {d[1]} {self.emit_ty(d[3])})"
         if k == "map":
